@@ -1,6 +1,6 @@
 (* C19 -- depth limiting flags exactly the operations deeper than the limit.
    Statements only; proofs are in Proofs/DepthProofs.v. *)
-From PyGql Require Import Spec.DepthSpec Proofs.DepthProofs.
+From PyGql Require Import Spec.DepthSpec Proofs.DepthProofs Proofs.DepthTermination Proofs.DepthWrapNamed.
 
 (* Whenever the model of the validator's depth measure returns a number, that
    number is the length of the longest field path through the selection,
@@ -42,6 +42,22 @@ Proof.
 Qed.
 Print Assumptions C19_wrap_inline.
 
+(* Moving part of a selection into a named fragment with a fresh name and
+   spreading it in place never changes the measured depth either. *)
+Theorem C19_wrap_named : forall frags vs n tc0 sub0 fuel1 fuel2 pre post nm ds l d1 d2,
+  fresh_frags frags n -> fresh_in n sub0 -> fresh_in n pre -> fresh_in n post ->
+  n_val nm = n -> included vs ds = true ->
+  sel_depth fuel1 ((n, (tc0, sub0)) :: frags) vs (pre ++ SSpread nm ds l :: post) = Ok d1 ->
+  sel_depth fuel2 frags vs (pre ++ sub0 ++ post) = Ok d2 ->
+  d1 = d2.
+Proof.
+  intros frags vs n tc0 sub0 fuel1 fuel2 pre post nm ds l d1 d2 Hff Hs Hpre Hpost Hn Hi H1 H2.
+  apply sel_depth_exact in H1. apply sel_depth_exact in H2.
+  apply (is_depth_wrap_named frags vs n tc0 sub0 Hff Hs pre post nm ds l d1 Hn Hi Hpre Hpost) in H1.
+  exact (is_depth_unique _ _ _ _ _ H1 H2).
+Qed.
+Print Assumptions C19_wrap_named.
+
 (* The rule never fails with anything but the library's coercion error
    (ill-formed @skip/@include arguments) -- in particular not on flat
    operations. *)
@@ -49,6 +65,23 @@ Theorem C19_total : forall fuel limit filter d vs k,
   max_depth_rule fuel limit filter d vs <> Crash k.
 Proof. intros; apply rule_from_no_crash. Qed.
 Print Assumptions C19_total.
+
+(* Fuel adequacy = termination of the validator: when the document's
+   fragments are acyclic (some rank function strictly decreases along every
+   fragment spread occurring anywhere inside a fragment -- what the
+   NoFragmentCycles rule guarantees), the model never runs out of fuel once it
+   has enough: the recursion of the code terminates, for every document,
+   limit, filter and variable assignment. *)
+Theorem C19_terminates : forall (d : document) vs rank limit filter,
+  acyclic (frag_table_of (doc_defs d)) rank ->
+  exists fuel0, forall fuel, fuel0 <= fuel ->
+    max_depth_rule fuel limit filter d vs <> OutOfFuel.
+Proof.
+  intros d vs rank limit filter Hac.
+  destruct (rule_terminates (frag_table_of (doc_defs d)) vs rank Hac limit filter (doc_defs d)) as [f0 H].
+  exists f0. intros fuel Hle. apply H; exact Hle.
+Qed.
+Print Assumptions C19_terminates.
 
 (* non-vacuity: a concrete document on which the premises hold *)
 Local Open Scope string_scope.
